@@ -386,7 +386,7 @@ struct RefModel
 // -------------------------------------------------------------------------------------------------------------------
 // Model construction through the public API (three routes)
 // -------------------------------------------------------------------------------------------------------------------
-static const char* ROUTE[] = {"createFromParam", "setters", "createAnisotropic", "createIsotropic"};
+static const char* ROUTE[] = {"createFromParam", "setters", "createAnisotropic", "createIsotropic", "anglesAndRadius"};
 
 static MatrixSquareSymmetric sillMat(const Comp& c, int nvar)
 {
@@ -436,7 +436,17 @@ static std::unique_ptr<Model> buildModel(const std::vector<Comp>& comps, int ndi
     {
       if (ic == 0) model.reset(new Model(ctxt));
       std::unique_ptr<CovAniso> cov;
-      if (route == 1)
+      if (route == 4)
+      {
+        // joint setter of the rotation and the ranges (or scales)
+        how = "CovAniso+setRotationAnglesAndRadius";
+        cov.reset(new CovAniso(c.type, ctxt));
+        cov->setParam(c.param);
+        if (flagRange) cov->setRotationAnglesAndRadius(angles, ranges, VectorDouble());
+        else cov->setRotationAnglesAndRadius(angles, VectorDouble(), ranges);
+        cov->setSill(sillMat(c, nvar));
+      }
+      else if (route == 1)
       {
         how = "CovAniso+setters";
         cov.reset(new CovAniso(c.type, ctxt));
@@ -675,6 +685,7 @@ struct CaseCfg
   bool gateSweep = false;
   std::string gateKey; // used instead of the pd / closed-form keys in the gate sweep
   std::string factoryKey; // key of the range-related oracles on the CovAniso::create* routes (parametrised structures)
+  std::string overrideKey;   // one key for every failure of a case whose construction route is itself the suspect
   bool representable = true; // every range / scadef is a scale the library accepts
   int NEIG;
 };
@@ -701,7 +712,9 @@ static Verdict checkModel(Rng& r, Ctx& c, Model* model, RefModel& rm, const Pts&
   const Comp& c0  = rm.comps[0];
   const bool single = rm.comps.size() == 1;
   // keys
-  auto K = [&](const std::string& kind, const std::string& dflt) { return cfg.gateSweep ? cfg.gateKey : dflt; };
+  auto K = [&](const std::string& /*kind*/, const std::string& dflt) {
+    return cfg.gateSweep ? cfg.gateKey : (!cfg.overrideKey.empty() ? cfg.overrideKey : dflt);
+  };
   std::string sfx      = single ? c0.endSuffix() : "";
   std::string names    = c0.key;
   for (size_t i = 1; i < rm.comps.size(); i++) names += "+" + rm.comps[i].key;
@@ -915,7 +928,7 @@ static Verdict checkModel(Rng& r, Ctx& c, Model* model, RefModel& rm, const Pts&
     }
     if (report || po.ok)
     {
-      std::string kc = cfg.gateSweep ? cfg.gateKey : (single ? c0.cpdKey(ndim) : "C03:cpd-sum" + nd);
+      std::string kc = K("cpd", single ? c0.cpdKey(ndim) : "C03:cpd-sum" + nd);
       c.check("cpd", kc, po.e1.ok, (double)std::max((LD)0, -po.e1.lmin), (double)po.e1.tol,
               detail0 + fmt(": P^T K P has eigenvalue %.6Lg (largest %.6Lg) on increments of order %d; param=%g", po.e1.lmin, po.e1.lmax, order, c0.param) + diag);
       c.check("cpd-vario", kc, po.e2.ok, (double)std::max((LD)0, -po.e2.lmin), (double)po.e2.tol,
@@ -1145,7 +1158,7 @@ static void run_case(Rng& r, Ctx& c)
   c0.param = drawParam(r, g, CLS[j % 8], c0.pclass);
   // construction route: 0 Model::createFromParam/addCovFromParam, 1 CovAniso + setters, 2 CovAniso::createAnisotropic[Multi],
   // 3 CovAniso::createIsotropic[Multi] (isotropic structures only)
-  int route = r.pick(std::vector<int> {0, 0, 0, 1, 1, 1, 2, 2, 3});
+  int route = r.pick(std::vector<int> {0, 0, 0, 1, 1, 1, 2, 2, 3, 4});
   genGeometry(r, ndim, c0, route == 3);
   c0.sill = genSill(r, nvar);
 
@@ -1217,9 +1230,18 @@ static void run_case(Rng& r, Ctx& c)
     bool anyParam = false;
     for (auto& cc : comps) anyParam = anyParam || cc.g.hasParam;
     // (at the end 0 of the parameter interval the structures degenerate for reasons of their own: plain keys there)
-    if (route >= 2 && anyParam && c0.pclass != "zero")
+    if ((route == 2 || route == 3) && anyParam && c0.pclass != "zero")
       cfg.factoryKey = std::string("C03:factory-range:") + (route == 2 ? "createAnisotropic" : "createIsotropic") + (nvar == 1 ? "" : "Multi");
   }
+
+  // CovAniso::setRotationAnglesAndRadius on a structure without a sill-range parametrisation (hasRange() < 0): its
+  // failures are kept under one key so that they do not hide under the structures' own keys
+  auto routeKey = [&](const std::vector<Comp>& cs) {
+    bool intr = false;
+    for (auto& cc : cs) intr = intr || cc.g.hasRange < 0;
+    return (route == 4 && intr) ? std::string("C03:setRotationAnglesAndRadius:intrinsic") : std::string();
+  };
+  cfg.overrideKey = routeKey(comps);
 
   // ---- representable scales --------------------------------------------------------------------------------------
   // CovAniso::setRangeIsotropic / setRanges / setScale(s) document (messages "Range is too small", "A scale should not
@@ -1335,7 +1357,8 @@ static void run_case(Rng& r, Ctx& c)
       r1.comps = one;
       r1.prepare();
       CaseCfg cf1 = cfg;
-      if (!(route >= 2 && one[0].g.hasParam)) cf1.factoryKey = "";
+      if (!((route == 2 || route == 3) && one[0].g.hasParam)) cf1.factoryKey = "";
+      cf1.overrideKey = routeKey(one);
       c.probe("sum-attribution");
       Verdict Vk = checkModel(r, c, m1.get(), r1, X, cf1, true);
       A.finite   = A.finite && Vk.finite;
